@@ -2,6 +2,27 @@ package main
 
 func init() {
 	property(&Property{
+		ID:    "C07",
+		Rules: []string{"PARAM-ORDER", "LAST-WRITER", "DECODE-THEN-PARAMS"},
+		Decides: "Decides precedence.",
+		NotDecided: "repeated.",
+		Assumptions: commonAssumptions,
+	})
+	property(&Property{
+		ID:    "C03",
+		Rules: []string{"KIND-EXHAUSTIVE", "KIND-VALUE-AGREE", "WKT-TABLE", "BYTES-ALPHABETS", "NAME-RESOLUTION", "DECODE-THEN-PARAMS"},
+		Decides: "Decides tables.",
+		NotDecided: "values.",
+		Assumptions: commonAssumptions,
+	})
+	property(&Property{
+		ID:    "C08",
+		Rules: []string{"LIMIT-SRC", "LIMIT-STRICT", "LIMIT-IMPL", "LIMIT-DEFAULTS", "SIGNCONV"},
+		Decides: "Decides limits.",
+		NotDecided: "numeric.",
+		Assumptions: commonAssumptions,
+	})
+	property(&Property{
 		ID:    "C09",
 		Rules: []string{"PANIC-REACH-SERVE", "COMMAOK-SERVE", "ASSERT-CHECKED", "TABLE-GUARD", "SIGNCONV", "OFFSET-BASE", "NIL-MAP-WRITE"},
 		Decides: "Decides crash constructs.",
